@@ -69,6 +69,9 @@ def variants_of(prog, rng, tier, all_perms=False, all_abstractions=False):
                 k += 1
                 if k >= (2 if tier == "quick" else 5):
                     break
+    q = rewrites.rename_decl_to_imported_name(prog)
+    if q is not None:
+        out.append(("rename-to-imported-name", q, {}))
     q = rewrites.inline_let(prog)
     if q is not None:
         out.append(("inline-let", q, {}))
@@ -181,7 +184,7 @@ def run(tier):
     chk.cov["evaluations"] = pairs
     chk.cov["distinct_nontrivial"] = len(sel) + len(groups)
     chk.notes["pairs_per_rewrite"] = per_rewrite
-    chk.cov["rule"] = ("accepted members of the PosShape/FnPos families (a seeded sample) x rewrites {3 trivia styles, 2 permutations, consistent renaming, renaming of one binder at a time (alpha-conversion), parenthesise all / "
+    chk.cov["rule"] = ("accepted members of the PosShape/FnPos families (a seeded sample) x rewrites {3 trivia styles, 2 permutations, consistent renaming, renaming of one binder at a time (alpha-conversion), renaming a local declaration to a name an unqualified import exports, parenthesise all / "
                        "one, name-with-let, wrap-in-function, abstract-subterm (beta-expansion), inline-let, move-to-module}; the same on the RecInst and DynScope families and on seeded random composite programs (those the compiler accepts) + for every (position, shape) the let / identity-function / imported variants "
                        "against the direct one; evaluations = (original, rewritten) pairs compiled and compared; non-trivial = distinct originals")
     if cases:
